@@ -248,6 +248,13 @@ def monOp (op : String) (args : List String) : Option String :=
       | _ => isPosOwner
     some (if ok && !allowed then "viol C15-unauthorised-accepted"
       else if !ok && allowed then "viol C15-authorised-rejected" else "ok")
+  | "mon_swap_conserve" => do
+    let (_d, ts) ← pTok args
+    let (xs, _) ← pRepeat pNat 4 ts
+    match xs with
+    | [balB, resB, balA, resA] =>
+      some (if (balA : Int) - balB == (resA : Int) - resB then "ok" else "viol C04-reserves-vs-outflow")
+    | _ => none
   | "mon_rev" => do
     -- C12 reverse quote: `ret` is what the implementation pays for quote + 1
     let (xs, _) ← pRepeat pNat 6 args
